@@ -19,23 +19,31 @@ CONSTANTS Base,           \* base symbols: a subset of AllBase
           MaxFlat,        \* longest sequence of base symbols
           FullLen,        \* sequences longer than this do not use the symbols in Rare
           MaxMacroFlat,   \* longest flat sequence containing a macro symbol
-          PartsLevel      \* 0: no parts mode, 1: small tables, 2: full tables
+          PartsLevel,     \* 0: no parts mode, 1: small tables, 2: full tables
+          LongMacros      \* which of the length-class macro symbols (AllLong) are enumerated
 
 VARIABLES mode, s
 
 Rep(c, n) == [i \in 1..n |-> c]
 HexRun(n) == [i \in 1..n |-> IF i % 3 = 0 THEN 57 ELSE IF i % 3 = 1 THEN 102 ELSE 48]   \* f09f09...
 Colon == <<ChColon>>
+RepSeq(u, k) == [i \in 1..(Len(u) * k) |-> u[((i - 1) % Len(u)) + 1]]          \* u repeated k times
+\* a valid dotted host of exactly n bytes (n >= 4): "a1." repeated, then a last label of 1..3 "z"
+HostOfLen(n) == LET k == (n - 1) \div 3 IN RepSeq(<<97, 49, 46>>, k) \o Rep(122, n - 3 * k)
 
 \* one representative per character class that the grammar distinguishes ("a": a-f, "x": g-z,
 \* "A": upper case, "0": digit, "!": every other byte)
 AllBase == {"a", "x", "A", "0", ".", "-", "_", ":", "/", "@", "[", "]", "!"}
 Rare == {"x"}       \* differs from "a" only inside an IPv6 literal
 GlueSyms == {"a", "A", ".", "-", ":", "/", "@"}
+\* length classes: valid parts repeated up to lengths around every limit the grammar or the
+\* code (or a plausible "optimisation" of it) knows: 255 / 256 (repository, DNS name),
+\* 261 / 262 (DNS name plus ":65535"), 300, 1000, 4096
+AllLong == {"HL261", "HL262", "HL300", "HL1000", "HL4096", "A300", "A1000", "D4096"}
 MacroSyms == {"D256", "D384", "D512", "Dshort", "Dlong", "Dupper", "Dnonhex", "Dalg", "Dmism",
               "A127", "A128", "A129", "A254", "A255", "A256",
-              "HDOM", "HPORT", "HV6", "HV6P"}
-ASSUME Base \subseteq AllBase /\ GlueSyms \subseteq Base
+              "HDOM", "HPORT", "HV6", "HV6P"} \cup LongMacros
+ASSUME Base \subseteq AllBase /\ GlueSyms \subseteq Base /\ LongMacros \subseteq AllLong
 
 Exp(y) ==
   CASE y = "a" -> <<97>> [] y = "x" -> <<120>> [] y = "A" -> <<65>> [] y = "0" -> <<48>>
@@ -57,13 +65,17 @@ Exp(y) ==
     [] y = "HPORT" -> <<108, 111, 99, 97, 108, 104, 111, 115, 116, 58, 53, 48, 48, 48>>  \* localhost:5000
     [] y = "HV6" -> <<91, 50, 48, 48, 49, 58, 100, 66, 56, 58, 58, 49, 93>>              \* [2001:dB8::1]
     [] y = "HV6P" -> <<91, 58, 58, 49, 93, 58, 52, 52, 51>>                              \* [::1]:443
+    [] y = "HL261" -> HostOfLen(261) [] y = "HL262" -> HostOfLen(262) [] y = "HL300" -> HostOfLen(300)
+    [] y = "HL1000" -> HostOfLen(1000) [] y = "HL4096" -> HostOfLen(4096)
+    [] y = "A300" -> Rep(97, 300) [] y = "A1000" -> Rep(97, 1000)
+    [] y = "D4096" -> Sha256 \o Colon \o HexRun(4096)
 
 RECURSIVE Expand(_)
 Expand(q) == IF q = <<>> THEN <<>> ELSE Exp(Head(q)) \o Expand(Tail(q))
 
 \* ----------------------------------------------------------- parts tables
-HostsSmall == {<<>>, <<"HDOM">>, <<"HPORT">>, <<"HV6P">>, <<"a">>, <<"A", ":", "0">>}
-HostsFull == HostsSmall \cup {<<"HV6">>, <<"a", ".", "a">>, <<"a", "-", ".", "a">>, <<"[", "x", "]">>, <<"a", ".", "a", ":">>}
+HostsSmall == {<<>>, <<"HDOM">>, <<"HPORT">>, <<"HV6P">>, <<"a">>, <<"A", ":", "0">>, <<"HL262">>}
+HostsFull == HostsSmall \cup {<<"HL261">>, <<"HL262", ":", "0">>, <<"HV6">>, <<"a", ".", "a">>, <<"a", "-", ".", "a">>, <<"[", "x", "]">>, <<"a", ".", "a", ":">>}
 ReposSmall == {<<"a">>, <<"a", ".", "a", "/", "0", "_", "_", "x">>, <<"A255">>, <<"A256">>, <<"A">>, <<>>}
 ReposFull == ReposSmall \cup {<<"a", "-", "-", "a">>, <<"A254", "/", "a">>, <<"A254", "/">>, <<"a", "_", "_", "_", "a">>, <<"a", "/", "/", "a">>}
 TagsSmall == {<<>>, <<"_", ".", "-">>, <<"A128">>, <<"A129">>, <<"a", "!">>}
